@@ -272,10 +272,6 @@ def findAllLoop (fl : RFlags) (f : Finder) (units : List Nat) (sticky : Bool) : 
 def findAll (fl : RFlags) (f : Finder) (units : List Nat) (start : Nat) (sticky : Bool) : List MatchR :=
   findAllLoop fl f units sticky (units.length + 2) start start
 
-/-- `stdMatcher` fast path, global branch (builtin_regexp.go:775-785): lastIndex := 0, findAll from 0. -/
-def fastGlobalMatches (fl : RFlags) (f : Finder) (units : List Nat) : List MatchR × Nat :=
-  (findAll fl f units 0 fl.sticky, 0)
-
 /-- `stdSearch` fast path (builtin_regexp.go:900-909) and generic (791-813): index of the first match
 from position 0 (sticky: at 0), `lastIndex` restored. -/
 def fastSearch (fl : RFlags) (f : Finder) (n li : Nat) : Int × Nat :=
@@ -337,5 +333,257 @@ def genericSplit (f : Finder) (units : List Nat) (unicode : Bool) (lim : Nat) : 
   else if units.length == 0 then
     (match matchAt f 0 with | none => [some []] | some _ => [])
   else splitLoop f units unicode lim (2 * units.length + 3) 0 0 []
+
+/-! ## 4. fast paths as coded: post-processing of raw `findAllSubmatchIndex` results
+
+`raw` below is what `regexpPattern.findAllSubmatchIndex` returned (a list of index arrays); how the
+engines and goja's wrappers produce it is a separate question (see `findAll`, `goAllMatches`). -/
+
+/-- `stdSplitter` fast path (builtin_regexp.go:1028-1100), `lim = none` ⇔ limit −1 (undefined). -/
+def fastSplitLoop (units : List Nat) (lim : Option Nat) :
+    List (List Int) → Nat → Nat → List (Option (List Nat)) → List (Option (List Nat)) × Bool
+  -- returns (valueArray, reachedLimit); `found` is tracked separately as in the Go code
+  | [], _, _, acc => (acc, false)
+  | r :: rest, lastIndex, found, acc =>
+    let s := (r.getD 0 0).toNat
+    let e := (r.getD 1 0).toNat
+    let n := units.length
+    if s == e && (s == 0 || s == n) then fastSplitLoop units lim rest lastIndex found acc
+    else
+      -- both branches of the Go `if lastIndex != idx0 … else if lastIndex == idx0` push exactly s[lastIndex:idx0]
+      let acc := acc ++ [some (sub units lastIndex s)]
+      let found := found + 1
+      if lim == some found then (acc, true)
+      else
+        let caps := captureValsPlain units (r.drop 2)
+        let room := match lim with | some l => l - found | none => caps.length + 1
+        if caps.length ≥ room then (acc ++ caps.take room, true)
+        else fastSplitLoop units lim rest e (found + caps.length) (acc ++ caps)
+termination_by raw => raw.length
+
+/-- the tail of `stdSplitter` needs the last `lastIndex`; recomputed from the consumed matches. -/
+def fastSplitLast (units : List Nat) : List (List Int) → Nat → Nat
+  | [], lastIndex => lastIndex
+  | r :: rest, lastIndex =>
+    let s := (r.getD 0 0).toNat
+    let e := (r.getD 1 0).toNat
+    if s == e && (s == 0 || s == units.length) then fastSplitLast units rest lastIndex
+    else fastSplitLast units rest e
+
+def fastSplit (units : List Nat) (raw : List (List Int)) (lim : Option Nat) : List (Option (List Nat)) :=
+  if lim == some 0 then []
+  else if units.length == 0 then (if raw.isEmpty then [some []] else [])
+  else
+    let (acc, hit) := fastSplitLoop units lim raw 0 0 []
+    if hit then acc
+    else acc ++ [some (sub units (fastSplitLast units raw 0) units.length)]
+
+/-- `stdMatcher`, global branch: the matched substrings (`none` = the method returns null). -/
+def fastMatchStrings (units : List Nat) (raw : List (List Int)) : Option (List (List Nat)) :=
+  if raw.isEmpty then none
+  else some (raw.map (fun r => sub units (r.getD 0 0).toNat (r.getD 1 0).toNat))
+
+/-- `stdReplacer`'s lastIndex write-back (builtin_regexp.go:1283-1290). -/
+def fastReplaceLastIndex (fl : RFlags) (raw : List (List Int)) (li : Nat) : Nat :=
+  if fl.global || fl.sticky then
+    (if !fl.global then (match raw.getLast? with | some r => (r.getD 1 0).toNat | none => 0) else 0)
+  else li
+
+/-- `stringReplace` (builtin_string.go:596) with a replacer: `repl i r` is the replacement text of
+match number i.  Pieces between matches are copied when `idx0 != lastIndex` (sic). -/
+def fastReplaceLoop (units : List Nat) (repl : List Int → List Nat) : List (List Int) → Nat → List Nat → List Nat × Nat
+  | [], lastIndex, buf => (buf, lastIndex)
+  | r :: rest, lastIndex, buf =>
+    let s := (r.getD 0 0).toNat
+    let buf := if s != lastIndex then buf ++ sub units lastIndex s else buf
+    fastReplaceLoop units repl rest (r.getD 1 0).toNat (buf ++ repl r)
+
+def fastReplace (units : List Nat) (repl : List Int → List Nat) (raw : List (List Int)) : List Nat :=
+  if raw.isEmpty then units
+  else
+    let (buf, lastIndex) := fastReplaceLoop units repl raw 0 []
+    if lastIndex != units.length then buf ++ sub units lastIndex units.length else buf
+
+/-- Generic `Symbol.replace` accumulation (builtin_regexp.go:1117-1186): `results` are (position, matchLength,
+replacement) in order; a result whose position lies before `nextSourcePosition` is ignored. -/
+def genericReplaceLoop (units : List Nat) : List (Nat × Nat × List Nat) → Nat → List Nat → List Nat × Nat
+  | [], next, buf => (buf, next)
+  | (pos, mlen, rep) :: rest, next, buf =>
+    if pos ≥ next then genericReplaceLoop units rest (pos + mlen) (buf ++ sub units next pos ++ rep)
+    else genericReplaceLoop units rest next buf
+
+def genericReplace (units : List Nat) (results : List (Nat × Nat × List Nat)) : List Nat :=
+  let (buf, next) := genericReplaceLoop units results 0 []
+  if next < units.length then buf ++ sub units next units.length else buf
+
+/-! ### `$` templates: `writeSubstitution` (builtin_regexp.go:1188-1260) -/
+
+def isDigit (c : Nat) : Bool := 48 ≤ c && c ≤ 57
+
+/-- position of the first '>' at or after j (`none` if there is none). -/
+def findGt (repl : List Nat) : Nat → Nat → Option Nat
+  | 0, _ => none
+  | fuel + 1, j => if j ≥ repl.length then none else if repl.getD j 0 == 62 then some j else findGt repl fuel (j + 1)
+
+/-- `caps` are the captures as the caller sees them (index 0 = matched text, `none` = undefined);
+`named ref` = `none` when there is no groups object / map, else the text to insert. -/
+def substLoop (units : List Nat) (position : Nat) (caps : List (Option (List Nat)))
+    (named : List Nat → Option (List Nat)) (repl : List Nat) : Nat → Nat → List Nat → List Nat
+  | 0, _, buf => buf
+  | fuel + 1, i, buf =>
+    let rl := repl.length
+    if i ≥ rl then buf
+    else
+      let c := repl.getD i 0
+      let matched := (caps.getD 0 none).getD []
+      let cap := fun (k : Nat) => (caps.getD k none).getD []
+      if c == 36 && i + 1 < rl then
+        let ch := repl.getD (i + 1) 0
+        if ch == 36 then substLoop units position caps named repl fuel (i + 2) (buf ++ [36])
+        else if ch == 96 then substLoop units position caps named repl fuel (i + 2) (buf ++ sub units 0 position)
+        else if ch == 39 then
+          let tailPos := position + matched.length
+          substLoop units position caps named repl fuel (i + 2)
+            (if tailPos < units.length then buf ++ sub units tailPos units.length else buf)
+        else if ch == 38 then substLoop units position caps named repl fuel (i + 2) (buf ++ matched)
+        else if ch == 60 then
+          match findGt repl (rl + 1) (i + 2) with
+          | some j =>
+            (match named (sub repl (i + 2) j) with
+             | some t => substLoop units position caps named repl fuel (j + 1) (buf ++ t)
+             | none => substLoop units position caps named repl fuel (i + 2) (buf ++ [36, 60]))
+          | none => substLoop units position caps named repl fuel (i + 2) (buf ++ [36, 60])
+        else
+          -- up to two digits, longest prefix whose value is a valid capture number
+          let d1 := repl.getD (i + 1) 0
+          let v1 := if isDigit d1 && d1 - 48 < caps.length then some (d1 - 48) else none
+          match v1 with
+          | none => substLoop units position caps named repl fuel (i + 2) (buf ++ [36, ch])
+          | some a =>
+            let d2 := repl.getD (i + 2) 0
+            let two := i + 2 < rl && isDigit d2 && a * 10 + (d2 - 48) < caps.length
+            let index := if two then a * 10 + (d2 - 48) else a
+            let j := if two then i + 3 else i + 2
+            if index > 0 then substLoop units position caps named repl fuel j (buf ++ cap index)
+            else substLoop units position caps named repl fuel (i + 2) (buf ++ [36, ch])
+      else substLoop units position caps named repl fuel (i + 1) (buf ++ [c])
+
+def substitute (units : List Nat) (position : Nat) (caps : List (Option (List Nat)))
+    (named : List Nat → Option (List Nat)) (repl : List Nat) : List Nat :=
+  substLoop units position caps named repl (repl.length + 1) 0 []
+
+/-! ### the engines' own "find all" iterations -/
+
+/-- Go `regexp.(*Regexp).allMatches`: continue at the end of the match, one position further after an
+empty match, and **drop an empty match that starts where the previous match ended**.  `f` is the
+linear-time engine's finder, positions are code units (ASCII / UTF-16-as-runes input). -/
+def goAllLoop (f : Finder) (n : Nat) : Nat → Nat → Option Nat → List MatchR
+  | 0, _, _ => []
+  | fuel + 1, pos, prevEnd =>
+    if pos > n then []
+    else match f pos with
+      | none => []
+      | some r =>
+        let empty := r.stop == r.start
+        let accept := !(empty && prevEnd == some r.start)
+        let next := if empty then r.stop + 1 else r.stop
+        let rest := goAllLoop f n fuel next (some r.stop)
+        if accept then r :: rest else rest
+
+def goAllMatches (f : Finder) (n : Nat) : List MatchR := goAllLoop f n (n + 2) 0 none
+
+/-- goja's sticky post-filter over a complete list (regexp.go:498-507). -/
+def stickyPrefix : List MatchR → Nat → List MatchR
+  | [], _ => []
+  | r :: rest, pos => if r.start != pos then [] else r :: stickyPrefix rest r.stop
+
+/-- The wrapper loops `findAllSubmatchIndexUTF16/Unicode` (regexp.go:347-393, 433-479) over regexp2's
+FindRunesMatchStartingAt / FindNextMatch, exactly as coded: `limit` (none = −1), and the sticky filter that
+compares the match start with the END of the previous match (`expect`). -/
+def r2AllLoop (fl : RFlags) (f : Finder) (units : List Nat) (sticky : Bool) :
+    Nat → Nat → Nat → Option Nat → List MatchR
+  | 0, _, _, _ => []
+  | fuel + 1, pos, expect, limit =>
+    if pos > units.length then []
+    else match f pos with
+      | none => []
+      | some r =>
+        if sticky && r.start != expect then []
+        else if limit == some 1 then [r]
+        else
+          let next := if r.stop == r.start then advance units r.stop fl.unicode else r.stop
+          r :: r2AllLoop fl f units sticky fuel next r.stop (limit.map (· - 1))
+
+def r2All (fl : RFlags) (f : Finder) (units : List Nat) (start : Nat) (limit : Option Nat) (sticky : Bool) : List MatchR :=
+  r2AllLoop fl f units sticky (units.length + 2) start start limit
+
+/-- The same sweep with the sticky test the generic protocol implies: a match must start exactly where the
+search resumed (`pos`), not where the previous match ended.  (What fixes/C20-sticky-global-generic… restores.) -/
+def idealAllLoop (fl : RFlags) (f : Finder) (units : List Nat) (sticky : Bool) :
+    Nat → Nat → Option Nat → List MatchR
+  | 0, _, _ => []
+  | fuel + 1, pos, limit =>
+    if pos > units.length then []
+    else match f pos with
+      | none => []
+      | some r =>
+        if sticky && r.start != pos then []
+        else if limit == some 1 then [r]
+        else
+          let next := if r.stop == r.start then advance units r.stop fl.unicode else r.stop
+          r :: idealAllLoop fl f units sticky fuel next (limit.map (· - 1))
+
+def idealAll (fl : RFlags) (f : Finder) (units : List Nat) (start : Nat) (limit : Option Nat) (sticky : Bool) : List MatchR :=
+  idealAllLoop fl f units sticky (units.length + 2) start limit
+
+/-- `stdMatcher` fast path, global branch (builtin_regexp.go:775-785): lastIndex := 0, then one sweep
+`findAllSubmatchIndex(s, 0, -1, sticky)` — here over the regexp2 wrapper loops as coded. -/
+def fastGlobalMatches (fl : RFlags) (f : Finder) (units : List Nat) : List MatchR × Nat :=
+  (r2All fl f units 0 none fl.sticky, 0)
+
+/-- Go's allMatches with code-point steps (UTF-8 input in unicode mode). -/
+def goAllLoopU (fl : RFlags) (f : Finder) (units : List Nat) : Nat → Nat → Option Nat → List MatchR
+  | 0, _, _ => []
+  | fuel + 1, pos, prevEnd =>
+    if pos > units.length then []
+    else match f pos with
+      | none => []
+      | some r =>
+        let empty := r.stop == r.start
+        let accept := !(empty && prevEnd == some r.start)
+        let next := if empty then advance units r.stop fl.unicode else r.stop
+        let rest := goAllLoopU fl f units fuel next (some r.stop)
+        if accept then r :: rest else rest
+
+def goAll (fl : RFlags) (f : Finder) (units : List Nat) : List MatchR := goAllLoopU fl f units (units.length + 2) 0 none
+
+/-- `stdSplitter` fast loop with the one-line repair of fixes/C20-split-empty-match-at-previous-end.diff: an empty
+match located where the previous piece ended (`lastIndex`, initially 0) or at the end of the subject is skipped —
+ECMA-262's `e = p` test. -/
+def fastSplitLoopFixed (units : List Nat) (lim : Option Nat) :
+    List (List Int) → Nat → Nat → List (Option (List Nat)) → List (Option (List Nat)) × Bool × Nat
+  | [], lastIndex, _, acc => (acc, false, lastIndex)
+  | r :: rest, lastIndex, found, acc =>
+    let s := (r.getD 0 0).toNat
+    let e := (r.getD 1 0).toNat
+    let n := units.length
+    if s == e && (s == lastIndex || s == n) then fastSplitLoopFixed units lim rest lastIndex found acc
+    else
+      let acc := acc ++ [some (sub units lastIndex s)]
+      let found := found + 1
+      if lim == some found then (acc, true, e)
+      else
+        let caps := captureValsPlain units (r.drop 2)
+        let room := match lim with | some l => l - found | none => caps.length + 1
+        if caps.length ≥ room then (acc ++ caps.take room, true, e)
+        else fastSplitLoopFixed units lim rest e (found + caps.length) (acc ++ caps)
+termination_by raw => raw.length
+
+def fastSplitFixed (units : List Nat) (raw : List (List Int)) (lim : Option Nat) : List (Option (List Nat)) :=
+  if lim == some 0 then []
+  else if units.length == 0 then (if raw.isEmpty then [some []] else [])
+  else
+    let (acc, hit, last) := fastSplitLoopFixed units lim raw 0 0 []
+    if hit then acc else acc ++ [some (sub units last units.length)]
 
 end GojaModel.C20
